@@ -414,7 +414,8 @@ func TestVerif_C17_UpdatePreservation(t *testing.T) {
 		for i := 0; i < n; i++ {
 			w.hold()
 			before := rig.readGroup(g)
-			op := rapid.SampledFrom([]string{"desc", "desc", "user-put", "user-new", "user-del", "pw-put", "pw-post", "pw-del", "keys-put", "keys-del", "wild-put"}).Draw(t, "op")
+			op := rapid.SampledFrom([]string{"desc", "desc", "user-put", "user-new", "user-del", "pw-put", "pw-post", "pw-del", "keys-put", "keys-del", "wild-put",
+				"wild-del", "wild-pw", "empty-put", "empty-del", "empty-pw"}).Draw(t, "op")
 			user := rapid.SampledFrom([]string{"alice", "bob", "gadmin"}).Draw(t, "user")
 			h := map[string]string{"Authorization": auth["Authorization"], "Content-Type": "application/json"}
 			var resp *rawResp
@@ -462,6 +463,28 @@ func TestVerif_C17_UpdatePreservation(t *testing.T) {
 			case "wild-put":
 				resp, err = rig.raw("PUT", p+"/.wildcard-user", h, []byte(`{"permissions":"present"}`))
 				addressed = []string{"wildcard-user", "permissions"}
+				if before["wildcard-user"] == nil {
+					addressed = addressed[:1]
+				}
+			case "wild-del":
+				// the fallback user and the user whose name is empty are two different things with look-alike URLs
+				resp, err = rig.raw("DELETE", p+"/.wildcard-user", h, nil)
+				addressed = []string{"wildcard-user"}
+			case "wild-pw":
+				resp, err = rig.raw("PUT", p+"/.wildcard-user/.password", h, []byte(fmt.Sprintf(`"wplain-%d"`, i)))
+				addressed = []string{"wildcard-user", "password"}
+			case "empty-put":
+				user = ""
+				resp, err = rig.raw("PUT", p+"/.empty-user", h, []byte(`{"permissions":"observe"}`))
+				addressed = []string{"users", "", "permissions"}
+			case "empty-del":
+				user = ""
+				resp, err = rig.raw("DELETE", p+"/.empty-user", h, nil)
+				addressed = []string{"users", ""}
+			case "empty-pw":
+				user = ""
+				resp, err = rig.raw("PUT", p+"/.empty-user/.password", h, []byte(fmt.Sprintf(`"eplain-%d"`, i)))
+				addressed = []string{"users", "", "password"}
 			}
 			if err != nil {
 				t.Fatalf("%s: no HTTP response: %v", op, err)
@@ -521,13 +544,13 @@ func TestVerif_C17_UpdatePreservation(t *testing.T) {
 				t.Fatalf("C17: %s (%v) changed more than it addresses:\n before %s\n after  %s", op, addressed, jb, ja)
 			}
 			// reads never disclose secrets
-			for _, path := range []string{p, p + "/.users/", p + "/.users/" + user, p + "/.wildcard-user", p + "/.tokens/"} {
+			for _, path := range []string{p, p + "/.users/", p + "/.users/" + user, p + "/.wildcard-user", p + "/.empty-user", p + "/.tokens/"} {
 				r2, err := rig.raw("GET", path, auth, nil)
 				if err != nil {
 					t.Fatalf("GET %s: no HTTP response: %v", path, err)
 				}
 				secrets := append([]string{}, w.secrets...)
-				secrets = append(secrets, "plain-", "posted-", "$2a$", "bmV3a2V5")
+				secrets = append(secrets, "plain-", "posted-", "$2a$", "bmV3a2V5", "wplain-", "eplain-")
 				if m := containsAny(string(r2.Body), secrets); m != "" {
 					t.Fatalf("C17: GET %s discloses a secret (%q): %s", path, m, trunc(r2.Body))
 				}
